@@ -86,6 +86,9 @@ func (t *c17StreamOnly) StreamableRun(ctx context.Context, args string, opts ...
 	if err := t.pre(ctx); err != nil {
 		return nil, err
 	}
+	if t.b.yield { // the schedule-exploring families keep the producer-less form (the goroutine multiplies the schedules)
+		return schema.StreamReaderFromArray([]string{c17P(t.name, args), c17Q(t.name, args)}), nil
+	}
 	// a producer that honours its context: it goes on producing after StreamableRun has returned and gives up when the
 	// context it was started with is cancelled (the buffer holds both frames: it never blocks)
 	sr, sw := schema.Pipe[string](2)
